@@ -28,6 +28,7 @@ class Bundle(object):
         self.ref = []          # reference list of (command, idx, term)
         self.n = 0             # number of adds so far (defines the next entry)
         self.commit_set = (1,)  # values that were actually set (1 = documented default)
+        self.explicit = ()      # values set through setRaftCommitIndex
         self.cur_commit = None
         self.depth = 0
         self.crashes = 0
@@ -127,6 +128,7 @@ class JournalModel(object):
         elif op == 'setCommit':
             b.cur_commit = ev[1]
             b.commit_set = tuple(sorted(set(b.commit_set) | {ev[1]}))
+            b.explicit = tuple(sorted(set(b.explicit) | {ev[1]}))
 
     def _entries(self, j):
         return [tuple(j[i]) for i in range(len(j))]
@@ -188,6 +190,11 @@ class JournalModel(object):
                                              k, ev, done, [len(x) for x, _, _ in prev], [len(x) for x, _, _ in got]),
                                          sig='journal-kill-' + ev[0])
                 allowed = set(pre.commit_set) | ({ev[1]} if ev[0] == 'setCommit' else set())
+                meta0 = pre.vfs.files.get(PATH + '.meta')
+                if meta0 and 1 not in pre.explicit:
+                    # a commit index had been stored before this operation began: falling back to the built-in
+                    # default means the stored value was lost, and the default was never set by anybody
+                    allowed.discard(1)
                 if ci not in allowed:
                     raise core.Violation('kill in %r: stored commit index %r was never set (%r)' % (ev, ci, sorted(allowed)))
         vfs.activate(b.vfs)
